@@ -139,6 +139,16 @@ impl DcpsDomainParticipant {
         datawriter_handle: &InstanceHandle,
         runtime: &impl DdsRuntime,
     ) -> DdsResult<()> {
+        let belongs_to_other_publisher = self
+            .domain_participant
+            .user_defined_publisher_list
+            .iter()
+            .filter(|x| &x.instance_handle != publisher_handle)
+            .any(|x| {
+                x.data_writer_list
+                    .iter()
+                    .any(|w| &w.instance_handle == datawriter_handle)
+            });
         let Some(publisher) = self
             .domain_participant
             .user_defined_publisher_list
@@ -156,6 +166,10 @@ impl DcpsDomainParticipant {
             let data_writer = publisher.data_writer_list.remove(index);
             self.announce_deleted_data_writer(data_writer, runtime);
             Ok(())
+        } else if belongs_to_other_publisher {
+            Err(DdsError::PreconditionNotMet(String::from(
+                "Data writer can only be deleted from its parent publisher",
+            )))
         } else {
             Err(DdsError::AlreadyDeleted)
         }
